@@ -64,6 +64,11 @@ def run_case(case) -> List[Tuple[str, str]]:
         # batch: the driver with the parallel gate open; seq: the driver's own sequential path (gate closed);
         # loop: the reference - a plain loop of turns, one proper context per agent, no driver involved
         cadence = {1: 1, 2: 2, 3: 7}.get(case["workers"], 1)       # turn 7: cadence 2 -> no snapshot, 1 and 7 -> snapshot
+        # concretisation choices that the model does not distinguish, derived from the case itself:
+        hv = sum(len(g_) for g_ in case["gsets"]) + case["workers"] + case["limit"] + sum(sizes.values())
+        turn_no = [7, 0, 14][hv % 3]                     # turn id 0 is a legal id
+        decl = hv % 4                                    # how the agents' graph sets are declared in the state
+        kill_spelling = [None, "false", "off", "0"][(hv // 3) % 4] if not case.get("kill") else None
         for mode in ("batch", "seq", "loop"):
             d = os.path.join(work, mode)
             logdir, snapdir = os.path.join(d, "logs"), os.path.join(d, "snaps")
@@ -74,13 +79,26 @@ def run_case(case) -> List[Tuple[str, str]]:
             # worker limit 1 closes the gate by definition; the model's workers=1 is realised with the gate
             # open through the selection limit (max_workers is read again by the selector)
             store = E.RecordingStore()
-            state: Dict[str, Any] = {"store": store, "version_etag": "0", "_boot_loaded": True,
-                                     "graphs_by_agent": {a: sorted(case["gsets"][i]) for i, a in enumerate(agents)}}
+            state: Dict[str, Any] = {"store": store, "version_etag": "0", "_boot_loaded": True}
+            gsets_by = {a: sorted(case["gsets"][i]) for i, a in enumerate(agents)}
+            if decl == 0:
+                state["graphs_by_agent"] = gsets_by
+            elif decl == 1:
+                state["agents"] = {a: {"graphs": g_, "persona": "p"} for a, g_ in gsets_by.items()}
+            elif decl == 2:       # per-agent metadata without graph sets; the sets live in graphs_by_agent
+                state["agents"] = {a: {"persona": "p"} for a in agents}
+                state["graphs_by_agent"] = gsets_by
+            else:
+                state["agents"] = {a: SimpleNamespace(graphs=g_) for a, g_ in gsets_by.items()}
+            if kill_spelling is not None:
+                # a raw (unvalidated) spelling of the kill-switch value: the turn pipeline reads it with bool(), i.e. a
+                # non-empty string means "enabled"; the driver must read it the same way
+                cfg["t4"]["enabled"] = kill_spelling
             from clematis.engine.cache import CacheManager
             cm = CacheManager(max_entries=64, ttl_sec=600, time_fn=lambda: 1000.0)
             cm.set("t2:semantic", ("k", 0), "v")
             state["_cache_mgr"] = cm
-            ctx = E.mk_ctx(cfg, "driver", 7, now=None)
+            ctx = E.mk_ctx(cfg, "driver", turn_no, now=None)
 
             computes: List[Tuple[str, bool, int]] = []      # (agent, dry-run?, commits seen so far) per compute call
 
@@ -124,7 +142,7 @@ def run_case(case) -> List[Tuple[str, str]]:
             raised, results = None, []
             try:
                 if mode == "loop":
-                    results = [double(None, E.mk_ctx(cfg, a, 7, now=None), state, f"text{i}") for i, a in enumerate(agents)]
+                    results = [double(None, E.mk_ctx(cfg, a, turn_no, now=None), state, f"text{i}") for i, a in enumerate(agents)]
                 else:
                     results = par._run_agents_parallel_batch(ctx, state, [(a, f"text{i}") for i, a in enumerate(agents)])
             except Exception as e:
@@ -169,7 +187,8 @@ def run_case(case) -> List[Tuple[str, str]]:
             if sorted(sq["snaps"]) != sorted(l["snaps"]):
                 fails.append(("FinalStateEqual", f"gsets={case['gsets']} cadence={cadence}: snapshot files of the driver's sequential path {sorted(sq['snaps'])} "
                                                  f"vs the plain loop {sorted(l['snaps'])}"))
-        where = f"gsets={case['gsets']} workers={case['workers']} limit={case['limit']} sizes={sizes}" + (" KILL-SWITCH" if case.get("kill") else "")
+        where = (f"gsets={case['gsets']} workers={case['workers']} limit={case['limit']} sizes={sizes} turn={turn_no} decl={decl}"
+                 + (f" t4.enabled={kill_spelling!r}" if kill_spelling is not None else "") + (" KILL-SWITCH" if case.get("kill") else ""))
         if case.get("kill") and (b["applied"] or str(b["version"]) != "0" or b["files"].get("apply.jsonl") or b["snaps"]):
             fails.append(("FinalStateEqual", f"{where}: kill switch on, but the batch driver applied {b['applied']}, version {b['version']!r}, "
                                              f"{len(b['files'].get('apply.jsonl', []))} apply record(s), snapshots {sorted(b['snaps'])}; "
